@@ -267,11 +267,16 @@ func (fd *Client) PutItem(input *dynamodb.PutItemInput) (*dynamodb.PutItemOutput
 	fd.mu.Lock()
 	defer fd.mu.Unlock()
 
+	return fd.putItemLocked(input)
+}
+
+// putItemLocked is PutItem, after the validation of the input, for a caller that holds the client lock
+func (fd *Client) putItemLocked(input *dynamodb.PutItemInput) (*dynamodb.PutItemOutput, error) {
 	if fd.forceFailureErr != nil {
 		return nil, fd.forceFailureErr
 	}
 
-	err = validateExpressionAttributes(input.ExpressionAttributeNames, input.ExpressionAttributeValues, aws.StringValue(input.ConditionExpression))
+	err := validateExpressionAttributes(input.ExpressionAttributeNames, input.ExpressionAttributeValues, aws.StringValue(input.ConditionExpression))
 	if err != nil {
 		return nil, err
 	}
@@ -307,11 +312,16 @@ func (fd *Client) DeleteItem(input *dynamodb.DeleteItemInput) (*dynamodb.DeleteI
 	fd.mu.Lock()
 	defer fd.mu.Unlock()
 
+	return fd.deleteItemLocked(input)
+}
+
+// deleteItemLocked is DeleteItem, after the validation of the input, for a caller that holds the client lock
+func (fd *Client) deleteItemLocked(input *dynamodb.DeleteItemInput) (*dynamodb.DeleteItemOutput, error) {
 	if fd.forceFailureErr != nil {
 		return nil, fd.forceFailureErr
 	}
 
-	err = validateExpressionAttributes(input.ExpressionAttributeNames, input.ExpressionAttributeValues, aws.StringValue(input.ConditionExpression))
+	err := validateExpressionAttributes(input.ExpressionAttributeNames, input.ExpressionAttributeValues, aws.StringValue(input.ConditionExpression))
 	if err != nil {
 		return nil, err
 	}
@@ -601,6 +611,10 @@ func (fd *Client) BatchWriteItem(input *dynamodb.BatchWriteItemInput) (*dynamodb
 		return &dynamodb.BatchWriteItemOutput{}, err
 	}
 
+	// the whole batch is one atomic step: the lock is held from the validation to the last write
+	fd.mu.Lock()
+	defer fd.mu.Unlock()
+
 	if err := fd.validateBatchWriteRequests(input); err != nil {
 		return &dynamodb.BatchWriteItemOutput{}, err
 	}
@@ -620,15 +634,12 @@ func (fd *Client) BatchWriteItem(input *dynamodb.BatchWriteItemInput) (*dynamodb
 
 	return &dynamodb.BatchWriteItemOutput{
 		UnprocessedItems:      unprocessed,
-		ItemCollectionMetrics: fd.getItemCollectionMetrics(),
+		ItemCollectionMetrics: fd.itemCollectionMetrics,
 	}, nil
 }
 
 // validateBatchWriteRequests rejects the whole batch before anything is written when a request can not be applied
 func (fd *Client) validateBatchWriteRequests(input *dynamodb.BatchWriteItemInput) error {
-	fd.mu.Lock()
-	defer fd.mu.Unlock()
-
 	if fd.forceFailureErr != nil {
 		return nil
 	}
@@ -695,19 +706,31 @@ func validateBatchWriteItemInput(input *dynamodb.BatchWriteItemInput) error {
 
 func executeBatchWriteRequest(fd *Client, table *string, req *dynamodb.WriteRequest) error {
 	if req.PutRequest != nil {
-		_, err := fd.PutItem(&dynamodb.PutItemInput{
+		putInput := &dynamodb.PutItemInput{
 			Item:      req.PutRequest.Item,
 			TableName: table,
-		})
+		}
+
+		if err := putInput.Validate(); err != nil {
+			return err
+		}
+
+		_, err := fd.putItemLocked(putInput)
 
 		return err
 	}
 
 	if req.DeleteRequest != nil {
-		_, err := fd.DeleteItem(&dynamodb.DeleteItemInput{
+		deleteInput := &dynamodb.DeleteItemInput{
 			Key:       req.DeleteRequest.Key,
 			TableName: table,
-		})
+		}
+
+		if err := deleteInput.Validate(); err != nil {
+			return err
+		}
+
+		_, err := fd.deleteItemLocked(deleteInput)
 
 		return err
 	}
